@@ -263,6 +263,12 @@ def check_class(case: t.Any, ctx: Ctx) -> None:
         got = inst.dict(rename=style)
         if got != want or list(got) != list(want):
             ctx.fail('observed', 'dict', f"dict(rename={style!r}) of fields {fnames} = {got!r}, want {want!r}")
+            return
+        # the fields explicitly set only (here: all of them): the same names, whatever order the record is kept in
+        ctx.evaluated()
+        got = inst.dict(set_only=True, rename=style)
+        if got != want:
+            ctx.fail('observed', 'dict-set-only', f"dict(set_only=True, rename={style!r}) of fields {fnames} = {got!r}, want {want!r}")
         return
     got = inst.into_data()
     if got != want or list(got) != list(want):
